@@ -292,6 +292,17 @@ def gen_case(rng: random.Random, thorough: bool) -> dict:
                     written = False
                 ops.append(['open', mode, limit])
             continue
+        if rng.random() < 0.035:
+            # a folder on disk added in one call, below an optional prefix
+            prefix = rng.choice(('', '', 'pre', 'pre/two', 'pre\\win', 'pre/'))
+            pnorm = prefix.replace('\\', '/').strip('/')
+            files = []
+            for k in range(rng.randint(1, 3)):
+                sub = rng.choice(('', '', 'sub', 'sub/deep'))
+                files.append([sub, f'af{len(ops)}x{k}', rng.choice(('txt', 'dat', '')), rng.choice((0, 1, 700, 3000)), rng.randrange(1 << 30)])
+                live.add(('/'.join(x for x in (pnorm, sub) if x), files[-1][1], files[-1][2]))
+            ops.append(['add_folder', prefix, files])
+            continue
         if rng.random() < 0.04:
             # a name with one letter beyond ASCII in exactly one of its three parts
             f, n, e = ident()
@@ -589,6 +600,49 @@ class Exec:
         if forged:
             self.run.count('forged_crc_writes')
 
+    def do_add_folder(self, op: list) -> None:
+        """VPK.add_folder: every file below a folder on disk becomes prefix/relative-path in the archive."""
+        _, prefix, files = op
+        src = tempfile.mkdtemp(prefix='rv-c13-src-')
+        try:
+            for sub, name, ext, size, dseed in files:
+                os.makedirs(os.path.join(src, sub), exist_ok=True)
+                with open(os.path.join(src, sub, name + ('.' + ext if ext else '')), 'wb') as f:
+                    f.write(make_data(size, dseed))
+            self._files_before = sorted(os.listdir(self.dir))
+            call = (lambda: self.vpk.add_folder(src, prefix)) if prefix else (lambda: self.vpk.add_folder(src))
+            if self.mode == 'r':
+                self.expect_rejected(f'add_folder(prefix={prefix!r})', call)
+                return
+            try:
+                call()
+            except CaseAbort:
+                raise
+            except Exception as exc:
+                self.fail(f'add_folder(<{len(files)} files>, prefix={prefix!r}) raised {type(exc).__name__}: {exc}',
+                          traceback.format_exc()[-1500:], key='add-folder-raises')
+            self.run.count('folders_added_from_disk')
+            pnorm = prefix.replace('\\', '/').strip('/')
+            for sub, name, ext, size, dseed in files:
+                folder = '/'.join(x for x in (pnorm, sub) if x)
+                ident = [folder, name, ext]
+                cname = name_forms(ident)[0]
+                try:
+                    info = self.vpk[tuple(ident)]
+                except KeyError:
+                    self.fail(f'add_folder(prefix={prefix!r}): the file {cname!r} is not in the archive; it lists '
+                              f'{sorted(n for n in self.vpk.filenames() if name in n)}', key='add-folder-name')
+                if info.filename != cname:
+                    self.fail(f'add_folder(prefix={prefix!r}) stored {cname!r} as {info.filename!r}', key='add-folder-name')
+                self.canon[tuple(ident)] = cname
+                self.idents[cname] = ident
+                self.mem[cname] = make_data(size, dseed)
+                self.meta[cname] = {'limit': self.limit, 'arch': 0, 'single': self.single, 'size': size, 'forged': False, 'previous': None}
+                self.run.count('files_added_through_add_folder')
+            self.nontrivial = True
+        finally:
+            shutil.rmtree(src, ignore_errors=True)
+
     def do_del(self, op: list) -> None:
         _, ident, form = op[:3]
         nm = name_forms(ident)[form]
@@ -811,6 +865,8 @@ class Exec:
                     self.flush(op[1])
                 elif op[0] == 'del':
                     self.do_del(op)
+                elif op[0] == 'add_folder':
+                    self.do_add_folder(op)
                 else:
                     self.do_write(op)
                 self.run.count('operations')
@@ -935,4 +991,4 @@ def replay(run, data) -> None:
 
 
 # (kept at the end of the file so that the text above stays the description the check was first built to)
-RULE += ' ' + "Later additions: dir_data_limit 65535 / 65536 / 100000, also set through the dir_limit attribute of the open archive; dotted folder and file names; other spellings of the folder (trailing '/', './', doubled and backward slashes) in every name form; forged overwrites with equal CRC32 and equal length. A name with one letter beyond ASCII in one of its three parts is either refused with ValueError leaving the archive as it was, or has to be listed under exactly that name after reopening."
+RULE += ' ' + "Later additions: dir_data_limit 65535 / 65536 / 100000, also set through the dir_limit attribute of the open archive; dotted folder and file names; other spellings of the folder (trailing '/', './', doubled and backward slashes) in every name form; forged overwrites with equal CRC32 and equal length. A name with one letter beyond ASCII in one of its three parts is either refused with ValueError leaving the archive as it was, or has to be listed under exactly that name after reopening. Folders on disk (files at the top and in sub-folders) are added with add_folder, with and without a prefix, and take part in the history like any other file."
